@@ -236,6 +236,16 @@ pub fn c14(out: &mut Out, rng0: &mut Rng, tier: &Tier) {
         out.nt = m >= 2;
         let got: Vec<V> = (0..p.len()).map(|i| dna(&p.get(i).bytes())).collect();
         out.case("s.id", l(vec![l(seqs.iter().map(|s| dna(s)).collect())]), l(got));
+        out.case(
+            "ps.build",
+            l(vec![l(seqs.iter().map(|s| dna(s)).collect())]),
+            l(vec![
+                dstr_v(&p.sequence),
+                l(p.start.iter().map(|x| nu(*x)).collect()),
+                l(p.length.iter().map(|x| nu(*x as usize)).collect()),
+                l((0..p.len()).map(|i| slc_v(&p.get(i))).collect()),
+            ]),
+        );
     }
     out.nt = false;
 }
